@@ -76,6 +76,20 @@ CHECKS = {
              "model, the abstract machine, and directly with what GetKeys/Get return.",
         design="7/C14", technique="Coq invariant proof (content liveness) + disk-walk correspondence run",
         note="Fault-free histories without late writes (finding D7 leaks a file until restart). " + NOTE_COMMON),
+    "C06": dict(
+        text="Theorems (Coq): sequences of fs_db's critical sections (write, repaired commit, rollback, collection, version look-up) "
+             "refine the abstract machine, so each takes effect atomically at its step (C06_atomic_steps_linearize); no deadlock: "
+             "for any number of threads, if every thread asks only for locks ranked above those it holds, some lock holder is "
+             "never blocked (C06_no_deadlock), and fs_db's acquisition sequences are strictly increasing (C06_fsdb_lock_order). "
+             "The read path is REFUTED as atomic (C06_read_atomic_refuted: look-up, then overwrite + collection, then fetch gives "
+             "NotFound for a key that always had a value) - defect D11, a known finding reproduced on every run through a pause "
+             "point; proved instead: the two-step read equals the atomic read when no physical deletion touches the resolved "
+             "version in between. Tie: groups of 2-4 concurrent operations under the real scheduler must be linearizable against "
+             "the model (all permutations), no panic, no operation that does not return.",
+        design="7/C06", technique="Coq proof (refinement for atomic steps, lock-order theorem, refutation witness) + linearizability check against the model",
+        note="PARTIAL: atomicity of a critical section and the lock sequences are assumptions read from the source; interleavings "
+             "inside a step, RWMutex starvation order and torn reads (C15) are not modelled; un-paused schedules are whatever the Go "
+             "scheduler produces. Known finding D11. " + NOTE_COMMON),
     "C07": dict(
         text="Theorem (Coq, on the abstract machine, any number of other transactions and writers in between): if two transactions "
              "open at the same time wrote a common key and one commits, the other - if RR/SER - fails with ErrTxSerialization "
@@ -88,6 +102,17 @@ CHECKS = {
         design="7/C07", technique="Coq proof (spec-level invariant + simulation) + adversarial schedule replay through a pause point",
         note="Atomicity of a critical section under the write lock is assumed (Go runtime). On the real code only the adversarial "
              "schedule per case is explored; the theorem covers all orders. " + NOTE_COMMON),
+    "C08": dict(
+        text="Theorems (Coq, atomic Begin/Commit/collection): a snapshot is the committed view of ONE state, and re-reading a key the "
+             "transaction has not written returns the same result for as long as it is open, whatever commits, writes, Begins and "
+             "collections happen in between (C08_repeatable, by induction over arbitrary operation sequences); the model keeps the "
+             "snapshot's version and content through every step. The full statement is REFUTED for the faithful model because Begin "
+             "is not atomic w.r.t. a multi-key publication (C08_fractured_refuted, D9) and w.r.t. the collector "
+             "(C08_gc_horizon_refuted, D10) - known findings, both reproduced deterministically on the real code on every run "
+             "with pause points. Tie: scripted schedules + concurrent groups (Begin/Commit/GC/Set) under the real scheduler whose "
+             "outcome, including repeated snapshot reads, must equal one sequential order of the model.",
+        design="7/C08", technique="Coq proof (stability under all operation sequences) with machine-checked refutation witnesses + scripted schedule replay",
+        note="Claimed with known findings D9 and D10 (not repaired: they need a change of the sequencing/locking protocol). " + NOTE_COMMON),
     "C09": dict(
         text="Theorems (Coq): for every sequential history the outputs of all non-collector operations equal those of the history "
              "with every collection/drain removed (C09_gc_transparent); a collection pass and a drain keep the model related to "
